@@ -95,7 +95,7 @@ def native_replay(job, fail, inputs, wd):
     incs = []
     for i in vf.REPO_INCS:
         incs += ["-I", vf.repo_path(i)]
-    incs += ["-I", os.path.join(vf.VERIF, "specs"), "-I", os.path.join(vf.VERIF, "harness"), "-I", vf.REPO]
+    incs += ["-I", os.path.join(vf.VERIF, "specs"), "-I", os.path.join(vf.VERIF, "harness"), "-I", vf.REPO, "-I", os.path.join(vf.VERIF, "harness", "fallback")]
     defs = dict(vf.REPO_DEFS)
     defs.update(job.defines)
     defs.update(rp.get("defines", {}))
